@@ -288,8 +288,14 @@ func (s sortedSeqContents) Less(i, j int) bool {
 	}
 
 	// map lists -- sort by the element's sortField values
+	// only a mapping element has fields: the Content of any other element (a nested
+	// sequence) is not a list of field name / field value pairs, and such an element
+	// sorts as if the field were missing
 	var iValue, jValue string
 	for a := range s.Content[i].Content {
+		if s.Content[i].Kind != yaml.MappingNode {
+			break
+		}
 		if a%2 != 0 {
 			continue // not a fieldNameIndex
 		}
@@ -300,6 +306,9 @@ func (s sortedSeqContents) Less(i, j int) bool {
 		}
 	}
 	for a := range s.Content[j].Content {
+		if s.Content[j].Kind != yaml.MappingNode {
+			break
+		}
 		if a%2 != 0 {
 			continue // not a fieldNameIndex
 		}
